@@ -164,7 +164,7 @@ impl Scenario for LairScn {
             }
         }
         let u0 = self.users[0].clone();
-        for k in ["foreign_denom", "amount_mismatch", "cw20_asset", "two_coins", "two_coins_asset_first", "asset_plus_foreign_coin", "no_funds", "unbond_nothing", "unbond_zero", "withdraw_foreign"] {
+        for k in ["foreign_denom", "amount_mismatch", "cw20_asset", "two_coins", "two_coins_asset_first", "other_whitelisted_coin", "other_whitelisted_coin_reversed", "asset_plus_foreign_coin", "no_funds", "unbond_nothing", "unbond_zero", "withdraw_foreign"] {
             v.push(LAct::BondBad { user: u0.clone(), kind: k.to_string() });
         }
         for k in ["1ns", "period-1ns", "period", "1day"] {
@@ -200,6 +200,9 @@ impl Scenario for LairScn {
                     "cw20_asset" => w.exec(user, &h.lair, &LairExec::Bond { asset: asset(&token("contract0"), 5) }, &[coin(5, BD[0])]),
                     "two_coins" => w.exec(user, &h.lair, &LairExec::Bond { asset: asset(&native(BD[0]), 5) }, &[coin(5, BD[1]), coin(5, BD[0])]),
                     "two_coins_asset_first" => w.exec(user, &h.lair, &LairExec::Bond { asset: asset(&native(BD[0]), 5) }, &[coin(5, BD[0]), coin(5, BD[1])]),
+                    // declared in one whitelisted denom, paid in the other (both ways round)
+                    "other_whitelisted_coin" => w.exec(user, &h.lair, &LairExec::Bond { asset: asset(&native(BD[0]), 5) }, &[coin(5, BD[1])]),
+                    "other_whitelisted_coin_reversed" => w.exec(user, &h.lair, &LairExec::Bond { asset: asset(&native(BD[1]), 5) }, &[coin(5, BD[0])]),
                     "asset_plus_foreign_coin" => w.exec(user, &h.lair, &LairExec::Bond { asset: asset(&native(BD[0]), 5) }, &[coin(5, BD[0]), coin(3, FOREIGN)]),
                     "no_funds" => w.exec(user, &h.lair, &LairExec::Bond { asset: asset(&native(BD[0]), 5) }, &[]),
                     "unbond_nothing" => w.exec(MALLORY, &h.lair, &LairExec::Unbond { asset: asset(&native(BD[0]), 5) }, &[]),
